@@ -142,11 +142,12 @@ def r3(ctx, prog):
     bad_where = None
     for m in marks:
         mp = q.pt(f, m)
+        filt = q.forward_correlated_filter(f, mp)
         for d in disp:
             dp = q.pt(f, d)
-            # dispatch of the marking request itself (straight line, same iteration) is fine; a *second* dispatch is one
-            # reached from a first dispatch
-            if f.cfg.exists_path(mp, dp) and f.cfg.exists_path(dp, dp, avoid=q.pts(f, tests)):
+            # dispatching the marking request itself is fine; a violation is a *further* dispatch reached from it without a
+            # re-test of close_index (paths contradicting the local flag that guards the mark are infeasible)
+            if f.cfg.exists_path(mp, dp, edge_filter=filt) and f.cfg.exists_path(dp, dp, avoid=q.pts(f, tests), edge_filter=filt):
                 design_a = False
                 bad_where = f.loc(d['i'])
     c = prog.fn1(IMPL + '::commitRespond')
